@@ -814,8 +814,13 @@ func (x *Exec) evalCall(ce *CEnv, n *ECall) *Val {
 				return x.specInline(ce, f, args)
 			}
 			if tn, ok := pkg.Pkg.Scope().Lookup(id.Name).(*types.TypeName); ok && len(n.Args) == 1 {
-				v := x.eval(ce, n.Args[0])
-				return x.coerce(v, tn.Type())
+				v := x.coerce(x.eval(ce, n.Args[0]), tn.Type())
+				if x.so.SortOf(v.Typ) == x.so.SortOf(tn.Type()) {
+					nv := *v
+					nv.Typ = tn.Type()
+					return &nv
+				}
+				return v
 			}
 		}
 		cfail("unknown function %s", id.Name)
